@@ -22,11 +22,12 @@ import (
 //         | (2 params)                            KafkaConsumer.checkConfig
 //         | (3 req params name d min max)         IntConfig (req=0) / IntConfigRequired (req=1)
 //         | (4 req params name d)                 StringConfig / StringConfigRequired
-//         | (5 req params name d dtxt parse min max)   Float64Config / Float64ConfigRequired
+//         | (5 req params name d min max)         Float64Config / Float64ConfigRequired
 //   params := ((key value)...) byte lists, distinct keys, sorted;  float := () NaN | (orderkey)
-//   dtxt := FormatFloat(d,'g',-1,64);  parse := ((text () | (float))...)  what strconv.ParseFloat answers
 // obs   :=  (1 0) error | (1 1) panic | (1 2 ((key cval)...))      cval := (0 bytes) | (1 int) | (2 bool) | (3 ((key sval)...))
-//         | (2 ok params') | (3 ()|(v) params') | (4 ()|(bytes) params') | (5 ()|(float) params')
+//         | (2 ok params') | (3 ()|(v) params') | (4 ()|(bytes) params') | (5 ()|(float)|-1 params' oracle)
+//   oracle := (d dtxt parse min max): dtxt = FormatFloat(d,'g',-1,64), parse := ((text ()|(float))...) = what strconv.ParseFloat
+//   answers for dtxt and the configured text; derived by Run from the input, never read from it
 
 const pfx = "librdkafka."
 
@@ -407,21 +408,7 @@ func genFloat(r *sx.Rng) sx.Tree {
 	default:
 		m[name] = sx.Pick(r, floatTexts...)
 	}
-	dtxt := fmtF(d)
-	texts := []string{dtxt}
-	if v, ok := m[name]; ok && v != dtxt {
-		texts = append(texts, v)
-	}
-	parse := []sx.Tree{}
-	for _, t := range texts {
-		f, err := strconv.ParseFloat(t, 64)
-		if err != nil {
-			parse = append(parse, sx.T(sx.Str(t), sx.T()))
-		} else {
-			parse = append(parse, sx.T(sx.Str(t), sx.T(fkey(f))))
-		}
-	}
-	return sx.T(sx.L(5), sx.B(r.Chance(30)), sortedParams(m), sx.Str(name), fkey(d), sx.Str(dtxt), sx.T(parse...), fkey(mn), fkey(mx))
+	return sx.T(sx.L(5), sx.B(r.Chance(30)), sortedParams(m), sx.Str(name), fkey(d), fkey(mn), fkey(mx))
 }
 
 // Gen generates one case.
@@ -564,24 +551,64 @@ func Run(in sx.Tree) sx.Tree {
 		}
 		return sx.T(sx.L(4), res, sortedParams(m))
 	case 5:
-		m := toMap(in.At(2))
-		name := string(in.At(3).ByteSlice())
-		d, mn, mx := unkey(in.At(4)), unkey(in.At(7)), unkey(in.At(8))
-		var v float64
-		var err error
-		if in.At(1).Bool() {
-			v, err = firebolt.Nodeconfig(m).Float64ConfigRequired(name, mn, mx)
-		} else {
-			v, err = firebolt.Nodeconfig(m).Float64Config(name, d, mn, mx)
-		}
-		return sx.T(sx.L(5), optF(v, err), sortedParams(m))
+		return runFloat(in)
 	}
 	panic("e8: unknown case kind")
+}
+
+// floatOracle is what strconv answers for the texts a float getter case can look at: the formatted default and
+// the configured value.  oracle := (d dtxt ((text ()|(float))...) min max), all floats as canonical order keys.
+func floatOracle(d, mn, mx float64, m map[string]string, name string) sx.Tree {
+	dtxt := fmtF(d)
+	texts := []string{dtxt}
+	if v, ok := m[name]; ok && v != dtxt {
+		texts = append(texts, v)
+	}
+	parse := []sx.Tree{}
+	for _, t := range texts {
+		parse = append(parse, sx.T(sx.Str(t), optF(strconv.ParseFloat(t, 64))))
+	}
+	return sx.T(fkey(d), sx.Str(dtxt), sx.T(parse...), fkey(mn), fkey(mx))
+}
+
+// runFloat: input (5 req params name d min max); the older form (5 req params name d dtxt parse min max) is still
+// read, its dtxt and parse fields are ignored.  The oracle is always derived here, never taken from the input.
+// obs := (5 ()|(float)|-1 params' oracle), -1 = the getter panicked.
+func runFloat(in sx.Tree) (obs sx.Tree) {
+	m := toMap(in.At(2))
+	name := string(in.At(3).ByteSlice())
+	imn, imx := 5, 6
+	if in.Len() == 9 {
+		imn, imx = 7, 8
+	} else if in.Len() != 7 {
+		panic("e8: bad float case")
+	}
+	d, mn, mx := unkey(in.At(4)), unkey(in.At(imn)), unkey(in.At(imx))
+	if d == 0 {
+		d = 0 // the order key does not distinguish -0 from +0: the default handed to the code is always +0
+	}
+	oracle := floatOracle(d, mn, mx, m, name)
+	defer func() {
+		if rec := recover(); rec != nil {
+			obs = sx.T(sx.L(5), sx.L(-1), sortedParams(m), oracle)
+		}
+	}()
+	var v float64
+	var err error
+	if in.At(1).Bool() {
+		v, err = firebolt.Nodeconfig(m).Float64ConfigRequired(name, mn, mx)
+	} else {
+		v, err = firebolt.Nodeconfig(m).Float64Config(name, d, mn, mx)
+	}
+	return sx.T(sx.L(5), optF(v, err), sortedParams(m), oracle)
 }
 
 // unkey inverts fkey (NaN for ()); -0 and +0 share key 0 and come back as +0
 func unkey(t sx.Tree) float64 {
 	if t.Len() == 0 {
+		return math.NaN()
+	}
+	if t.Len() != 1 || !t.At(0).IsLeaf || !t.At(0).Z.IsInt64() {
 		return math.NaN()
 	}
 	k := t.At(0).Int()
